@@ -316,6 +316,8 @@ fn quoted_items<const K1: u8, const K2: u8, const K3: u8, const LEN: usize>() {
     std::mem::forget(r);
 }
 
+// NOT REGISTERED: hex_plain_oct, oct_quote_escape_hex, backslash_escape_hex_hex give no result in 500 s
+// (dropping / growing the Vec<u8> behind a symbolic escape); plain_oct_backslash_escape finishes.
 #[kani::proof]
 #[kani::stub(std::mem::drop, crate::lex::verif_kani::common::mem_drop__leak)]
 #[kani::unwind(7)]
@@ -445,7 +447,6 @@ macro_rules! quoted_rejected {
     ($name:ident, $unwind:literal, $s:literal, $msg:literal) => {
         #[kani::proof]
         #[kani::unwind($unwind)]
-        #[kani::stub(std::mem::drop, crate::lex::verif_kani::common::mem_drop__leak)]
         fn $name() {
             let r = lex_quoted_string_as_vec($s);
             // (the property promises an error, not a particular error kind)
@@ -463,6 +464,7 @@ quoted_rejected!(lex_quoted_string__escaped_quote_does_not_terminate, 6, "a\\\""
 quoted_rejected!(lex_quoted_string__escape_n_rejected, 6, "\\n\"", "\\n is not an escape of this language");
 quoted_rejected!(lex_quoted_string__escape_8_rejected, 6, "\\8\"", "8 is not an octal digit");
 quoted_rejected!(lex_quoted_string__escape_upper_x_rejected, 8, "\\X41\"", "only a lower-case x introduces a hex escape");
+// NOT REGISTERED (no result in 500 s; the clause is carried symbolically by lex_quoted_string__hex_escape_needs_two_hex_digits / oct_escape_needs_three_oct_digits):
 quoted_rejected!(lex_quoted_string__one_hex_digit_rejected, 8, "\\x4\"z", "an escape with one hex digit is rejected");
 quoted_rejected!(lex_quoted_string__two_oct_digits_rejected, 8, "\\12\"z", "an escape with two octal digits is rejected");
 quoted_rejected!(lex_quoted_string__oct_400_rejected, 8, "\\400\"", "an octal escape above 377 is rejected");
@@ -550,6 +552,7 @@ fn lex_raw_string__h0_l2() {
     raw_string::<0, 2>()
 }
 
+// NOT REGISTERED: h1_l2, h1_l3, h2_l2, h2_l3 give no result in 500 s (only h0_l2 finishes).
 #[kani::proof]
 #[kani::stub(std::mem::drop, crate::lex::verif_kani::common::mem_drop__leak)]
 #[kani::unwind(10)]
